@@ -207,7 +207,11 @@ fn arc_atom_table() -> Option<Arc<AtomTable>> {
 impl RawBlockTraits for AtomTable {
     #[inline]
     fn init_size() -> usize {
-        ATOM_TABLE_INIT_SIZE
+        #[cfg(feature = "verif")]
+        let size = crate::verif_atomrace::atom_init_size(ATOM_TABLE_INIT_SIZE);
+        #[cfg(not(feature = "verif"))]
+        let size = ATOM_TABLE_INIT_SIZE;
+        size
     }
 
     #[inline]
@@ -492,16 +496,41 @@ impl AtomTable {
         }
 
         loop {
+            #[cfg(feature = "verif")]
+            crate::verif_atomrace::atom_point(crate::verif_atomrace::P_READ_INNER);
             let mut block_epoch = atom_table.inner.read();
+            #[cfg(feature = "verif")]
+            crate::verif_atomrace::atom_point(crate::verif_atomrace::P_READ_TABLE);
             let mut table_epoch = block_epoch.table.read();
 
+            #[cfg(feature = "verif")]
+            crate::verif_atomrace::atom_point(crate::verif_atomrace::P_LOOKUP);
             if let Some(atom) = block_epoch.lookup_str(string) {
                 return atom;
             }
 
             // take a lock to prevent concurrent updates
+            #[cfg(feature = "verif")]
+            let update_guard = if crate::verif_atomrace::atom_scheduled() {
+                // under the verification scheduler a blocked `lock()` is a sequence of failed
+                // attempts, each of them one scheduled step
+                loop {
+                    crate::verif_atomrace::atom_point(crate::verif_atomrace::P_LOCK);
+                    match atom_table.update.try_lock() {
+                        Ok(guard) => break guard,
+                        Err(std::sync::TryLockError::WouldBlock) => {}
+                        Err(std::sync::TryLockError::Poisoned(e)) => panic!("{e}"),
+                    }
+                }
+            } else {
+                crate::verif_atomrace::atom_point(crate::verif_atomrace::P_LOCK);
+                atom_table.update.lock().unwrap()
+            };
+            #[cfg(not(feature = "verif"))]
             let update_guard = atom_table.update.lock().unwrap();
 
+            #[cfg(feature = "verif")]
+            crate::verif_atomrace::atom_point(crate::verif_atomrace::P_RECHECK);
             let is_same_allocation = RcuRef::same_epoch(&block_epoch, &atom_table.inner.read());
             let is_same_atom_list = RcuRef::same_epoch(&table_epoch, &block_epoch.table.read());
 
@@ -517,6 +546,8 @@ impl AtomTable {
 
             unsafe {
                 let len_ptr = loop {
+                    #[cfg(feature = "verif")]
+                    crate::verif_atomrace::atom_point(crate::verif_atomrace::P_ALLOC);
                     let ptr = block_epoch.block.alloc(size);
 
                     if ptr.is_null() {
@@ -527,6 +558,8 @@ impl AtomTable {
                             block: new_block,
                             table: new_table,
                         };
+                        #[cfg(feature = "verif")]
+                        crate::verif_atomrace::atom_point(crate::verif_atomrace::P_PUBLISH_INNER);
                         atom_table.inner.replace(new_alloc);
                         block_epoch = atom_table.inner.read();
                         table_epoch = block_epoch.table.read();
@@ -538,6 +571,8 @@ impl AtomTable {
                 // SAFETY: `len_ptr` was obtained from `block_epoch.block.alloc()`
                 let len_offset = block_epoch.block.get_offset(len_ptr);
 
+                #[cfg(feature = "verif")]
+                crate::verif_atomrace::atom_point(crate::verif_atomrace::P_WRITE);
                 write_to_ptr(string, len_ptr);
 
                 let atom = AtomCell::new()
@@ -549,11 +584,15 @@ impl AtomTable {
                     .with_tag(HeapCellValueTag::Atom as u8)
                     .get_name();
 
+                #[cfg(feature = "verif")]
+                crate::verif_atomrace::atom_point(crate::verif_atomrace::P_PUBLISH);
                 let mut table = table_epoch.clone();
                 table.insert(atom.into());
                 block_epoch.table.replace(table);
 
                 // explicit drop to ensure we don't accidentally drop it early
+                #[cfg(feature = "verif")]
+                crate::verif_atomrace::atom_point(crate::verif_atomrace::P_UNLOCK);
                 drop(update_guard);
 
                 return atom;
@@ -564,3 +603,43 @@ impl AtomTable {
 
 unsafe impl Send for AtomTable {}
 unsafe impl Sync for AtomTable {}
+
+/// Accessors for the verification hook `verif_atomrace` (add-only).
+#[cfg(feature = "verif")]
+impl AtomTable {
+    /// Is a global atom table alive in this process?
+    pub(crate) fn verif_global_alive() -> bool {
+        arc_atom_table().is_some()
+    }
+
+    /// Number of build-time (static) atoms; dynamic atom indices start here.
+    pub(crate) fn verif_static_count(&self) -> usize {
+        STRINGS.len()
+    }
+
+    /// (capacity, used bytes) of the currently published block.
+    pub(crate) fn verif_block_stats(&self) -> (usize, usize) {
+        let inner = self.inner.read();
+        (inner.block.capacity(), inner.block.used_bytes())
+    }
+
+    /// Is the update lock free?
+    pub(crate) fn verif_lock_free(&self) -> bool {
+        self.update.try_lock().is_ok()
+    }
+
+    /// The entries of the published index, in index order: (flat atom index, text bytes).
+    pub(crate) fn verif_dump(&self) -> Vec<(u64, Vec<u8>)> {
+        let table = self.active_table();
+        table
+            .iter()
+            .map(|a| (a.flat_index(), a.as_str().as_bytes().to_vec()))
+            .collect()
+    }
+}
+
+/// Is `text` a member of the build-time atom table?
+#[cfg(feature = "verif")]
+pub(crate) fn verif_is_static_text(text: &str) -> bool {
+    STATIC_ATOMS_MAP.get(text).is_some()
+}
